@@ -187,6 +187,11 @@ func newC18World(t *testing.T) *c18World {
 		}
 		w.tmFam = append(w.tmFam, []*c18TmrChain{newC18TmrChainAt(k.oldID, 990, 14, t0, ah), newC18TmrChainAt(k.newID, nf, 10, t0.Add(2*time.Second), ah)})
 	}
+	for _, k := range c18ShapeClasses { // index len(c18IDClasses)+i: the same life cycle with other header shapes
+		app := c18Fill(k.appLen, 'a')
+		w.tmFam = append(w.tmFam, []*c18TmrChain{newC18TmrChainShape("ah"+k.class+"-1", 990, 14, t0, app, k.sh),
+			newC18TmrChainShape("ah"+k.class+"-2", 3, 10, t0.Add(2*time.Second), app, k.sh)})
+	}
 	w.addr["r0"] = w.chainA.SenderAcc.String()
 	w.addr["r1"] = sdk.AccAddress(sha256.New().Sum([]byte("r1"))[:20]).String()
 	w.addr["tssA"] = sdk.AccAddress(sha256.New().Sum([]byte("tssA"))[:20]).String()
@@ -482,9 +487,16 @@ func (w *c18World) realiseCS(desc string) exported.ClientState {
 		}
 		return tmtypes.NewClientState(w.chainB.ChainID, tmtypes.DefaultTrustLevel, tp, xibctesting.UnbondingPeriod,
 			xibctesting.MaxClockDrift, hd.GetHeight().(clienttypes.Height), commitmenttypes.GetSDKSpecs(), xibctesting.Prefix, delay)
-	case "tmi0a", "tmi1a", "tmi2a", "tmi3a", "tmi4a", "tmi5a", "tmi6a", "tmi7a", "tmi8a", "tmi9a",
-		"tmi0b", "tmi1b", "tmi2b", "tmi3b", "tmi4b", "tmi5b", "tmi6b", "tmi7b", "tmi8b", "tmi9b": // chain-id shape classes
-		c := w.tmFam[2+int(desc[3]-'0')][int(desc[4]-'a')]
+	}
+	if len(desc) == 5 && strings.HasPrefix(desc, "tmi") { // chain-id shape / header shape classes
+		c := w.tmFam[2+c18Idx(desc[3])][int(desc[4]-'a')]
+		hd := c.hdr[c.first]
+		return tmtypes.NewClientState(c.chainID, tmtypes.DefaultTrustLevel, xibctesting.TrustingPeriod, xibctesting.UnbondingPeriod,
+			xibctesting.MaxClockDrift, hd.GetHeight().(clienttypes.Height), commitmenttypes.GetSDKSpecs(), xibctesting.Prefix, 0)
+	}
+	switch desc {
+	case "tmi??": // (handled above)
+		c := w.tmFam[2][0]
 		hd := c.hdr[c.first]
 		return tmtypes.NewClientState(c.chainID, tmtypes.DefaultTrustLevel, xibctesting.TrustingPeriod, xibctesting.UnbondingPeriod,
 			xibctesting.MaxClockDrift, hd.GetHeight().(clienttypes.Height), commitmenttypes.GetSDKSpecs(), xibctesting.Prefix, 0)
@@ -661,7 +673,7 @@ func (w *c18World) invalidCS(base, tag string) exported.ClientState {
 
 func (w *c18World) realiseKS(desc string) exported.ConsensusState {
 	if len(desc) == 5 && strings.HasPrefix(desc, "tmi") {
-		c := w.tmFam[2+int(desc[3]-'0')][int(desc[4]-'a')]
+		c := w.tmFam[2+c18Idx(desc[3])][int(desc[4]-'a')]
 		return c.hdr[c.first].ConsensusState()
 	}
 	switch desc {
@@ -738,7 +750,7 @@ func (w *c18World) baseTime(base string) time.Time {
 		return w.now
 	}
 	if len(base) == 5 && strings.HasPrefix(base, "tmi") {
-		c := w.tmFam[2+int(base[3]-'0')][int(base[4]-'a')]
+		c := w.tmFam[2+c18Idx(base[3])][int(base[4]-'a')]
 		return c.hdr[c.first].GetTime()
 	}
 	switch base {
@@ -927,6 +939,28 @@ func (w *c18World) apply(r *Rec, op string) (string, string) {
 			r.Count("chainid.set.beyond-int63")
 		}
 		return "chainid " + hxs(id) + " " + f[2], "fmt=" + strconv.Itoa(c18b(isFmt)) + " parse=" + parse + " set=" + set
+	case "vbshape": // MsgUpdateClient.ValidateBasic on a correctly signed header whose free-form fields have the given lengths
+		var n [5]int
+		for i := range n {
+			n[i], _ = strconv.Atoi(f[1+i])
+		}
+		out := "err"
+		pan, _ := safely(func() {
+			c := newC18TmrChainShape("vbs-1", 100, 2, w.tmR.t0, c18Fill(n[0], 'a'), c18TmShape{n[1], n[2], n[3], n[4]})
+			hd := c.update(101, clienttypes.NewHeight(1, 100))
+			msg, err := clienttypes.NewMsgUpdateClient("chain-b", hd, w.chainA.SenderAcc)
+			if err == nil && msg.ValidateBasic() == nil {
+				out = "ok"
+			}
+		})
+		if pan {
+			out = "panic"
+		}
+		r.Count(fmt.Sprintf("vbshape.apphash-len.%d.%s", n[0], out))
+		if out != "ok" && (n[1] == 0 || n[1] == 32) && (n[2] == 0 || n[2] == 32) && (n[3] == 0 || n[3] == 32) && n[4] == 20 {
+			w.find(r, fmt.Sprintf("C18:update-stateless-stage-rejects-valid-header:apphash-len-%d", n[0]), "MsgUpdateClient.ValidateBasic refuses a correctly signed Tendermint header whose free-form fields are well formed (the app hash may have any length)", out, "ok")
+		}
+		return strings.Join(f, " "), out
 	case "timens": // relative, in nanoseconds (1 ns around a deadline)
 		off, _ := strconv.ParseInt(f[1], 10, 64)
 		w.now = w.now.Add(time.Duration(off))
@@ -1008,6 +1042,20 @@ var c18IDClasses = []struct{ class, oldID, newID string }{
 	{"rev-near-2e63", "huge-9223372036854775806", "huge-9223372036854775807"},
 	{"rev-beyond-int63", "top-9223372036854775807", "top-9223372036854775808"},
 	{"not-revision-format", "plainchain", "plainchain"},
+}
+
+const c18IdxChars = "0123456789ABCDEFGHIJKLMN"
+
+func c18Idx(c byte) int { return strings.IndexByte(c18IdxChars, c) }
+
+// header-shape classes of Tendermint counterparties: app hashes of any length, empty data / evidence / last-results hashes
+var c18ShapeClasses = []struct {
+	class  string
+	appLen int
+	sh     c18TmShape
+}{
+	{"1", 1, c18TmShapeDefault}, {"8", 8, c18TmShape{0, 32, 32, 20}}, {"20", 20, c18TmShape{32, 0, 32, 20}}, {"31", 31, c18TmShape{32, 32, 0, 20}},
+	{"33", 33, c18TmShapeDefault}, {"64", 64, c18TmShape{0, 0, 0, 20}},
 }
 
 // own reading of a chain id, independent of core/client/types/height.go: revision format = <name not ending in '-'>-<number
@@ -1967,6 +2015,9 @@ func (w *c18World) update(r *Rec, f []string) (string, string) {
 	if bscNewcomer {
 		r.Count("update.bsc.sealed-by-newcomer." + res)
 	}
+	if th, ok := header.(*tmtypes.Header); ok && vbc && th.Header != nil {
+		r.Count(fmt.Sprintf("update.tm.apphash-len.%d.%s", len(th.Header.AppHash), res))
+	}
 	if tmRotation {
 		r.Count("update.tm.valset-changed." + res)
 	}
@@ -2414,7 +2465,7 @@ func c18ChainIDs() [][]string {
 	var out [][]string
 	revs := []string{"0", "1", "2", "9", "10", "20", "2147483648", "4294967296", "9223372036854775807", "9223372036854775808", "18446744073709551615"}
 	for i, k := range c18IDClasses {
-		a, b := fmt.Sprintf("tmi%da", i), fmt.Sprintf("tmi%db", i)
+		a, b := "tmi"+c18IdxChars[i:i+1]+"a", "tmi"+c18IdxChars[i:i+1]+"b"
 		h := []string{"reset", "relayer r0 N0 N1", "time " + a + " 120", "create N0 " + a + " " + a, "update N0 r0 next", "update N0 r0 next", "verify N0 latest",
 			"upgrade N0 " + b + " " + b, "status N0", "verify N0 installed", "update N0 r0 oldrev", "update N0 r0 next", "verify N0 latest", "update N0 r0 oldrev",
 			"restart", "update N0 r0 next", "update N0 r0 oldrev", "verify N0 installed", "verify N0 latest", "status N0"}
@@ -2430,6 +2481,28 @@ func c18ChainIDs() [][]string {
 		for _, rv := range []string{"0", "1", "11", "9223372036854775808"} {
 			h = append(h, "chainid "+id+" "+rv)
 		}
+	}
+	return append(out, h)
+}
+
+// header-shape classes of Tendermint counterparties: app hashes of 1, 8, 20, 31, 33, 64 bytes (32 everywhere else), empty
+// data / evidence / last-results hashes — created, updated, upgraded to the next revision, toggled in; every update goes
+// through MsgUpdateClient.ValidateBasic and then the msg server. Plus the stateless stage alone on a grid of shapes.
+func c18HeaderShapes() [][]string {
+	var out [][]string
+	for i := range c18ShapeClasses {
+		ix := c18IdxChars[len(c18IDClasses)+i : len(c18IDClasses)+i+1]
+		a, b := "tmi"+ix+"a", "tmi"+ix+"b"
+		out = append(out, []string{"reset", "relayer r0 N0 N1", "relayer tssA N1", "time " + a + " 120", "create N0 " + a + " " + a, "status N0", "update N0 r0 next", "dry update N0 r0 next", "update N0 r0 next",
+			"upgrade N0 " + b + " " + b, "status N0", "update N0 r0 oldrev", "update N0 r0 next", "restart", "update N0 r0 next", "update N0 r0 forged", "status N0",
+			"create N1 tssA tss", "toggle N1 " + a + " " + a, "update N1 r0 next", "update N1 r0 next", "status N1"})
+	}
+	h := []string{"reset"}
+	for _, al := range []int{0, 1, 8, 20, 31, 32, 33, 64, 1000} {
+		h = append(h, fmt.Sprintf("vbshape %d 32 32 32 20", al), fmt.Sprintf("vbshape %d 0 0 0 20", al))
+	}
+	for _, x := range []string{"32 5 32 32 20", "32 32 31 32 20", "32 32 32 33 20", "32 32 32 32 19", "32 32 32 32 21", "32 32 32 32 0", "8 0 32 0 20", "64 32 0 32 20"} {
+		h = append(h, "vbshape "+x)
 	}
 	return append(out, h)
 }
@@ -2741,6 +2814,9 @@ func TestC18(t *testing.T) {
 			run(h)
 		}
 		for _, h := range c18ChainIDs() {
+			run(h)
+		}
+		for _, h := range c18HeaderShapes() {
 			run(h)
 		}
 	}
